@@ -74,6 +74,8 @@ def _prestate(home, scenario, params):
         for k in params.get("removed", []):
             if k not in user:
                 data.pop(k, None)
+        for k in params.get("obsolete", []):
+            data[k] = 1   # parameters of the older evo that no longer exist
         open(os.path.join(evo_dir, "assets_version"), "w").write(params.get("old_version", "v1.0.0"))
     else:
         open(os.path.join(evo_dir, "assets_version"), "w").write(_version())
@@ -89,13 +91,15 @@ def _command(scenario, params, home):
         return CONFIG_SNIPPET % (["reset", "-y"],), "all"
     if scenario == "reset_keys":
         return CONFIG_SNIPPET % (["reset"] + list(params["keys"]),), set(params["keys"])
+    # explicit_c: the package settings file named explicitly with -c (the same file, given as a plain string path)
+    explicit = ["-c", os.path.join(home, ".evo", "settings.json")] if params.get("explicit_c") else []
     if scenario == "set":
-        return CONFIG_SNIPPET % (["set"] + [str(t) for t in params["tokens"]],), set(t for t in params["tokens"] if t in _defaults())
+        return CONFIG_SNIPPET % (["set"] + explicit + [str(t) for t in params["tokens"]],), set(t for t in params["tokens"] if t in _defaults())
     if scenario == "merge":
         other = os.path.join(home, "other.json")
         with open(other, "w") as f:
             json.dump(params["other"], f)
-        argv = ["set", "-m", other] + (["--soft"] if params["soft"] else [])
+        argv = ["set"] + explicit + ["-m", other] + (["--soft"] if params["soft"] else [])
         return CONFIG_SNIPPET % (argv,), set(params["other"])
     raise ValueError(scenario)
 
@@ -142,6 +146,23 @@ def crash_case(case, rep=None):
         if isinstance(state, tuple) and state[0] == "bad":
             raise Mismatch("scenario %s failed (%s) and left a broken settings file: %s" % (scenario, r.stderr.decode()[-200:], state[1]),
                            observed="broken_file", scenario=scenario, op="no_fault")
+    else:
+        # the scenario run to completion without any fault: the file is complete and a later start sees every default key
+        state = _settings_state(home)
+        if state == "absent" or (isinstance(state, tuple) and state[0] == "bad"):
+            raise Mismatch("scenario %s %s completed, settings.json on disk is %s" % (scenario, params, state if state == "absent" else state[1]),
+                           observed="broken_file", scenario=scenario, op="no_fault")
+        r2 = _run(START_SNIPPET, home, shim=False)
+        if r2.returncode != 0:
+            raise Mismatch("scenario %s %s completed, but the next evo start fails: %s" % (
+                scenario, params, r2.stderr.decode().strip().splitlines()[-1][:200] if r2.stderr else r2.returncode), observed="next_start_fails",
+                scenario=scenario, op="no_fault")
+        keys_line = [ln for ln in r2.stdout.decode().splitlines() if ln.startswith("KEYS=")]
+        loaded = json.loads(keys_line[0][5:])
+        missing = [kk for kk in _defaults() if kk not in loaded]
+        if missing:
+            raise Mismatch("scenario %s %s completed, but the next start does not see default keys %s" % (scenario, params, missing[:5]),
+                           observed="keys_missing", scenario=scenario, op="no_fault")
     steps = _steps(log)
     if not steps:
         raise HarnessError("shim recorded no steps for scenario %s: %s" % (scenario, r.stderr.decode()[-300:]))
@@ -363,7 +384,11 @@ def _fixed_crash_cases(tier):
     yield {"scenario": "set", "params": {"user": user, "tokens": ["plot_export_format", "png", "plot_usetex", "plot_figsize", "6", "5"]}}
     yield {"scenario": "merge", "params": {"user": user, "other": {"plot_linewidth": 2.5, "plot_split": False}, "soft": False}}
     yield {"scenario": "merge", "params": {"user": user, "other": {"plot_linewidth": 2.5}, "soft": True}}
+    yield {"scenario": "set", "params": {"user": user, "tokens": ["plot_linewidth", "3", "plot_split"], "explicit_c": True}}
+    yield {"scenario": "upgrade", "params": {"user": user, "removed": ["plot_3d_zoom", "save_traj_in_zip"], "old_version": "v1.9.0",
+                                             "obsolete": ["plot_old_a", "plot_old_b", "legacy_c"]}}
     if tier == "thorough":
+        yield {"scenario": "merge", "params": {"user": user, "other": {"plot_linewidth": 2.5}, "soft": False, "explicit_c": True}}
         yield {"scenario": "upgrade", "params": {"user": {}, "removed": [], "old_version": ""}}
         yield {"scenario": "set", "params": {"user": {}, "tokens": ["save_traj_in_zip"]}}
 
@@ -413,16 +438,18 @@ st_crash = st.one_of(
     st.fixed_dictionaries({"scenario": st.just("first_start"), "params": st.just({})}),
     st.fixed_dictionaries({"scenario": st.just("upgrade"), "params": st.fixed_dictionaries({
         "user": st_user, "removed": st.lists(st.sampled_from(["plot_3d_zoom", "save_traj_in_zip", "plot_backend", "tf_cache_max_time"]), max_size=3, unique=True),
-        "old_version": st.sampled_from(["v1.0.0", "v1.30.5", ""])})}),
+        "old_version": st.sampled_from(["v1.0.0", "v1.30.5", "", "v1.9.0"]),
+        "obsolete": st.lists(st.sampled_from(["plot_old_a", "plot_old_b", "legacy_c", "zz_d"]), max_size=4, unique=True)})}),
     st.fixed_dictionaries({"scenario": st.just("reset_all"), "params": st.fixed_dictionaries({"user": st_user})}),
     st.fixed_dictionaries({"scenario": st.just("reset_keys"), "params": st.fixed_dictionaries({
         "user": st_user, "keys": st.lists(st.sampled_from(["plot_split", "plot_backend", "plot_linewidth", "table_export_format"]), min_size=1, max_size=3, unique=True)})}),
     st.fixed_dictionaries({"scenario": st.just("set"), "params": st.fixed_dictionaries({
         "user": st_user, "tokens": st.lists(st.sampled_from(["plot_export_format", "png", "plot_usetex", "plot_figsize", "6", "5", "true", "plot_linewidth", "0.5",
-                                                             "plot_statistics", "rmse", "none"]), min_size=1, max_size=5)})}),
+                                                             "plot_statistics", "rmse", "none"]), min_size=1, max_size=5),
+        "explicit_c": st.booleans()})}),
     st.fixed_dictionaries({"scenario": st.just("merge"), "params": st.fixed_dictionaries({
         "user": st_user, "other": st.dictionaries(st.sampled_from(["plot_linewidth", "plot_split", "plot_fontscale"]), st.sampled_from([2.5, False, 1.25]), min_size=1, max_size=2),
-        "soft": st.booleans()})}),
+        "soft": st.booleans(), "explicit_c": st.booleans()})}),
 )
 st_sched = st.fixed_dictionaries({"nproc": st.sampled_from([2, 2, 3]), "switch": st.lists(st.integers(1, 20), min_size=1, max_size=6)})
 
@@ -430,6 +457,6 @@ CRASH = Sub("crash", sub_crash, st_crash, 10, 160, nontrivial=lambda c: True, sh
 SCHED = Sub("schedule", sub_schedule, st_sched, 24, 1500, nontrivial=lambda c: True, shards_quick=6)
 SUBS = [
     CRASH, SCHED,
-    Sub("crash_points", kind="custom", custom=custom_crash, n_quick=1, n_thorough=1, shards_quick=7, shards_thorough=9, exhaustive_tiers=("quick", "thorough")),
+    Sub("crash_points", kind="custom", custom=custom_crash, n_quick=1, n_thorough=1, shards_quick=9, shards_thorough=12, exhaustive_tiers=("quick", "thorough")),
     Sub("schedules", kind="custom", custom=custom_schedules, n_quick=1, n_thorough=1, shards_quick=16, shards_thorough=16, exhaustive_tiers=("quick", "thorough")),
 ]
